@@ -12,6 +12,12 @@ import (
 // library's default implementation, so that the conversation is the same as
 // without them and only the calls are added to the recording.
 
+// nameCloser is what a cache that supports Close looks like (declared here so that the harness does not
+// depend on the library exporting a name for it).
+type nameCloser interface {
+	Close(ctx context.Context, name string) error
+}
+
 type recStatements struct {
 	x     *Exec
 	inner wire.StatementCache
@@ -30,7 +36,7 @@ func (c *recStatements) Get(ctx context.Context, name string) (*wire.Statement, 
 
 func (c *recStatements) Close(ctx context.Context, name string) error {
 	c.x.cb(ctx, M{"name": "st.close", "key": name})
-	if cl, ok := c.inner.(wire.StatementCloser); ok {
+	if cl, ok := c.inner.(nameCloser); ok {
 		return cl.Close(ctx, name)
 	}
 	return nil
@@ -59,7 +65,7 @@ func (c *recPortals) Execute(ctx context.Context, name string, reader *buffer.Re
 
 func (c *recPortals) Close(ctx context.Context, name string) error {
 	c.x.cb(ctx, M{"name": "po.close", "key": name})
-	if cl, ok := c.inner.(wire.PortalCloser); ok {
+	if cl, ok := c.inner.(nameCloser); ok {
 		return cl.Close(ctx, name)
 	}
 	return nil
